@@ -11,6 +11,7 @@ from harness import core
 
 META = {
     "ops": "oneof,choice,mix",
+    "driver": "drv_oneof",
     "technique": "Lean 4 proof (induction over call histories, all shuffle outcomes) + correspondence with scripted random source",
     "level_text": "Kernel-checked theorems for every n>=2, every history length and every sequence of shuffle outcomes: no "
                   "back-to-back repeat, every aligned block a permutation, key independence for any interleaving, choice "
@@ -308,7 +309,7 @@ def run(ctx, deep=False):
     lines = gen_lines(ctx, deep)
     ctx.exhaustive = True
     ctx.notes["exhaustive_scope"] = "all sequences of 4 shuffle outcomes, n<=%d, 3n+1 calls" % (4 if (ctx.tier == "thorough" or deep) else 3)
-    model = core.run_driver([strip(l) for l in lines])
+    model = core.run_driver([strip(l) for l in lines], ctx.driver)
     dist = {}
     for l, m in zip(lines, model):
         if "driver_error" in m:
